@@ -5,7 +5,7 @@ CONSTANT FailKinds = {"none", "call", "load"}
 CONSTANT ForceMulti = {TRUE}
 CONSTANT SepExit = TRUE
 CONSTANT Mutant = "none"
-CONSTANT KeepHist = FALSE
+CONSTANT KeepHist = "none"
 INVARIANT TypeOK
 INVARIANT NoDuplicate
 INVARIANT Intact
@@ -19,3 +19,6 @@ INVARIANT BlocksPartition
 INVARIANT ExitOnlyAfterRaise
 INVARIANT NoFailureNoRaise
 CHECK_DEADLOCK TRUE
+VIEW view
+ACTION_CONSTRAINT DumpEdge
+CONSTRAINT DumpInit
